@@ -8,7 +8,9 @@
   arbitrary histories of load / reload / lookup steps with arbitrary source and MDQ-server answers.
 
   `Policy.code` is the pinned code, `Policy.ideal` the reference the specification is built on
-  (see `Model/MdStore.lean`, `Spec/C11.lean`).  Theorems stated for an arbitrary `pol` hold for both.
+  (see `Model/MdStore.lean`, `Spec/C11.lean`); they differ in two switches (F9, F11).  Theorems
+  stated for an arbitrary `pol`, or about functions that take no policy (`prepEnt`, `parseDoc`, all
+  lookups on a descriptor, `keysOf`/`itemsOf`/`withDescOf`), hold of the code as it is.
 -/
 import PysamlModel.Proofs.C11
 
@@ -142,7 +144,9 @@ theorem C11_non_saml2_entity_not_served (p2 : α) (e : Ent α) (h : ∀ r ∈ e.
     empty source, the descriptor served for an entityID is the FIRST entity of the document with
     that entityID that is not past its validUntil (validity checking on) and keeps a descriptor —
     expired entities, entities without SAML 2.0 support and repeated entityIDs are not served, and
-    everything else is. -/
+    everything else is; the descriptor served is `prepEnt` of that entity, i.e. (by
+    `C11_non_saml2_roles_not_served`) the entity with exactly its SAML 2.0 role descriptors.
+    Holds at full strength of the code as it is (after fix 096626db), for every document. -/
 theorem C11_filters (chk : Bool) (now : Int) (p2 : α) (d : Doc α) (m : EntMap α)
     (h : parseDoc chk now p2 [] d = .ok m) (id : α) (e' : Ent α) :
     (id, e') ∈ m ↔
